@@ -284,24 +284,17 @@ def _transform(ctx, P, B):
         kcalls.append(1)
         return Obj("ndarray", "KERNEL-OUT")
 
-    def all_model(ev, f, args, kw, node):
-        from ..absint import Builtin
+    from ..concrete import REPRESENTATIVES, truth_hook
 
-        if isinstance(f, Builtin) and f.name == "all" and args and isinstance(args[0], Obj):
-            return TOP
-        return NotImplemented
-
-    ev = Evaluator(P, models={"transform:_interp_1d_conservative": m_kernel}, call_hook=all_model)
+    # bins given as one representative per order class; the source's monotonicity test is evaluated on it
     try:
-        outs = ev.run_paths(kfi, lambda: dict(phi=Obj("ndarray", "phi", (), {"shape": TOP}), theta=Obj("ndarray", "theta"), target_theta_bins=Obj("ndarray", "bins")))
-        # the path on which neither "all decreasing" nor "all increasing" holds must raise, the two others must call the kernel
-        neither = [o for o in outs if [d[2] for d in o.decisions if "all(" in d[1]] == [False, False]]
-        mono = [o for o in outs if any(d[2] for d in o.decisions if "all(" in d[1])]
-        if not neither or not mono:
-            ctx.unknown("G8", "non-monotonic conservative bins", f"monotonicity test not recognised (paths: {[[d[1:] for d in o.decisions] for o in outs]})")
-        elif any(o.kind != "raise" for o in neither):
+        res = {}
+        for cls in ("increasing", "decreasing", "neither"):
+            ev = Evaluator(P, models={"transform:_interp_1d_conservative": m_kernel}, call_hook=truth_hook({"bins": REPRESENTATIVES[cls]}))
+            res[cls] = ev.run_paths(kfi, lambda: dict(phi=Obj("ndarray", "phi", (), {"shape": TOP}), theta=Obj("ndarray", "theta"), target_theta_bins=Obj("ndarray", "bins")))
+        if any(o.kind != "raise" for o in res["neither"]):
             ctx.report("G8", kfi, "non-monotonic conservative bins", "bins that are neither strictly increasing nor strictly decreasing are answered instead of refused")
-        elif any(o.kind != "return" for o in mono):
+        elif any(o.kind != "return" for cls in ("increasing", "decreasing") for o in res[cls]):
             ctx.report("G8", kfi, "valid: monotonic conservative bins", "strictly monotonic bins are refused")
         else:
             ctx.ok("G8", "non-monotonic conservative bins", "refused; monotonic bins accepted")
